@@ -280,3 +280,70 @@ Example C02_line_motion_examples :
   /\ o_text (run_op_v OpDelete [] t VDown None 6) = t
   /\ o_reg (run_op_v OpYank [] t VGoto (Some 2%nat) 0) = Some (true, T "a" ++ [10] ++ T "b" ++ [10]).
 Proof. vm_compute. repeat split. Qed.
+
+(** (18) The case operators g~ gU gu over any range a motion gives (and doubled, over whole lines): the text keeps its
+    length, every line break stays where it is, and the register is not touched. *)
+Theorem C02_case_keeps_shape :
+  forall (k : casek) (s : ostate) (r : orange), range_ordered r ->
+    length (o_text (apply_case k s r)) = length (o_text s)
+    /\ (forall j, is_nl_at (o_text (apply_case k s r)) j = is_nl_at (o_text s) j)
+    /\ o_reg (apply_case k s r) = o_reg s.
+Proof. exact case_keeps_shape. Qed.
+Print Assumptions C02_case_keeps_shape.
+
+(** (19) ... and nothing outside the range changes. *)
+Theorem C02_case_char_locality :
+  forall (k : casek) (s : ostate) (lo0 hi0 : nat),
+    let t := o_text s in
+    let hi := Nat.min hi0 (length t) in let lo := Nat.min lo0 hi in
+    firstn lo (o_text (apply_case k s (RChar lo0 hi0))) = firstn lo t
+    /\ skipn hi (o_text (apply_case k s (RChar lo0 hi0))) = skipn hi t.
+Proof. exact case_char_locality. Qed.
+Print Assumptions C02_case_char_locality.
+
+(** (20) [count]~ changes nothing but the case of characters of the cursor's line from the cursor on. *)
+Theorem C02_tilde_keeps_shape :
+  forall (t : text) (count i : nat), (i <= length t)%nat ->
+    length (o_text (run_tilde t count i)) = length t
+    /\ (forall j, is_nl_at (o_text (run_tilde t count i)) j = is_nl_at t j)
+    /\ firstn i (o_text (run_tilde t count i)) = firstn i t
+    /\ skipn (line_end t i) (o_text (run_tilde t count i)) = skipn (line_end t i) t.
+Proof. exact tilde_keeps_shape. Qed.
+Print Assumptions C02_tilde_keeps_shape.
+
+(** (21) [count]r[c] keeps the length of the text and everything before the cursor. *)
+Theorem C02_replace_keeps_length :
+  forall (t : text) (c : N) (count i : nat), (i <= length t)%nat ->
+    length (o_text (run_replace t c count i)) = length t
+    /\ firstn i (o_text (run_replace t c count i)) = firstn i t.
+Proof. exact replace_keeps_length. Qed.
+Print Assumptions C02_replace_keeps_length.
+
+(** g~w, gUU, 3~ at the end of a line, 2rx, and 3rx where the line has only two characters left *)
+Example C02_case_examples :
+  o_text (run_case CToggle (T "ab Cd") (MWord false) 1 0) = T "AB Cd"
+  /\ o_text (run_case_lines CUpper (T "ab" ++ [10] ++ T "cd") 1 3) = T "ab" ++ [10] ++ T "CD"
+  /\ o_text (run_tilde (T "abc") 3 1) = T "aBC" /\ o_cur (run_tilde (T "abc") 3 1) = 2%nat
+  /\ o_text (run_replace (T "abc") 120 2 0) = T "xxc"
+  /\ o_text (run_replace (T "abc") 120 3 1) = T "abc"
+  /\ range_ordered (op_range OpDelete (T "ab Cd") (MWord false) 1 0).
+Proof. vm_compute. repeat split. Qed.
+
+(** (22) J (Vim's [do_join], 'nojoinspaces', any count, any cursor) conserves what is written: the characters that are
+    neither blanks nor line breaks are the same, in the same order, before and after. *)
+Theorem C02_join_conserves_solid :
+  forall (t : text) (count i : nat), solid (o_text (run_join t count i)) = solid t.
+Proof. exact join_conserves_solid. Qed.
+Print Assumptions C02_join_conserves_solid.
+
+(** a b / c joined: one space; a blank-ended line gets none; a line starting with ")" gets none; leading blanks go;
+    3J takes three lines; J on the last line does nothing *)
+Example C02_join_examples :
+  o_text (run_join (T "ab" ++ [10] ++ T "c") 1 0) = T "ab c"
+  /\ o_text (run_join (T "ab " ++ [10] ++ T "c") 1 0) = T "ab c"
+  /\ o_text (run_join (T "ab" ++ [10] ++ T ")") 1 0) = T "ab)"
+  /\ o_text (run_join (T "ab" ++ [10] ++ T "   c") 1 0) = T "ab c"
+  /\ o_text (run_join (T "a" ++ [10] ++ T "b" ++ [10] ++ T "c") 3 0) = T "a b c"
+  /\ o_cur (run_join (T "ab" ++ [10] ++ T "c") 1 0) = 2%nat
+  /\ o_text (run_join (T "ab" ++ [10] ++ T "c") 1 3) = T "ab" ++ [10] ++ T "c".
+Proof. vm_compute. repeat split. Qed.
